@@ -518,8 +518,8 @@ pub fn property() -> Property {
         pre: Some(pre),
         post: None,
         parts: vec![
-            Box::new(Part { name: "presets", driver: Driver::Gen(preset_strategy, 480_000, 1_920_000), prop: prop_preset, exhaustive: false }),
-            Box::new(Part { name: "gearsets", driver: Driver::Gen(table_strategy, 24_000, 96_000), prop: prop_table, exhaustive: false }),
+            Box::new(Part { name: "presets", driver: Driver::Gen(preset_strategy, 480_000, 7_680_000), prop: prop_preset, exhaustive: false }),
+            Box::new(Part { name: "gearsets", driver: Driver::Gen(table_strategy, 24_000, 384_000), prop: prop_table, exhaustive: false }),
         ],
     }
 }
